@@ -433,6 +433,13 @@ package gmars
 
 // resource bound: configurations whose core size and process limit do not exceed 2^32 (C04 quantifies over fields <= 2^20)
 //@ pure cfgBounded(c SimulatorConfig) = c.CoreSize <= 4294967296 && c.Processes <= 4294967296
+// the quick configuration: every argument reaches the field it names; limits span the core, the minimum distance
+// is the warrior length (what cmd/gmars builds from its flags)
+//@ func NewQuickConfig
+//@   panics [C04]
+//@   modifies nothing
+//@   ensures [C04][C02][C01][C11] result.Mode == mode && result.CoreSize == coreSize && result.Processes == processes && result.Cycles == cycles
+//@      && result.ReadLimit == coreSize && result.WriteLimit == coreSize && result.Length == length && result.Distance == length
 //@ func newReportSim
 //@   panics [C04]
 //@   requires cfgBounded(config)
@@ -880,7 +887,7 @@ package gmars
 
 //@ func parseLoadFile94
 //@   panics [C10][C05]
-//@   requires 1 <= coresize && coresize <= 4294967296
+//@   requires 1 <= coresize && coresize <= 4294967296 && reader != nil
 //@   modifies nothing
 //@   ensures [C10] result.1 != nil ==> len(result.0.Code) == 0 && result.0.Start == 0
 //@   ensures [C10] result.1 == nil ==> 0 <= result.0.Start && result.0.Start < len(result.0.Code) && codeWf(result.0, coresize)
@@ -901,7 +908,7 @@ package gmars
 
 //@ func parseLoadFile88
 //@   panics [C10][C05]
-//@   requires 1 <= coresize && coresize <= 4294967296
+//@   requires 1 <= coresize && coresize <= 4294967296 && reader != nil
 //@   modifies nothing
 //@   ensures [C10] result.1 != nil ==> len(result.0.Code) == 0 && result.0.Start == 0
 //@   ensures [C10] result.1 == nil ==> 0 <= result.0.Start && (result.0.Start < len(result.0.Code) || (result.0.Start == 0 && len(result.0.Code) == 0))
@@ -922,7 +929,7 @@ package gmars
 
 //@ func ParseLoadFile
 //@   panics [C10][C05]
-//@   requires 1 <= simConfig.CoreSize && simConfig.CoreSize <= 4294967296
+//@   requires 1 <= simConfig.CoreSize && simConfig.CoreSize <= 4294967296 && reader != nil
 //@   modifies nothing
 //@   ensures [C10] result.1 != nil ==> len(result.0.Code) == 0 && result.0.Start == 0
 //@   ensures [C10] result.1 == nil ==> 0 <= result.0.Start && (result.0.Start < len(result.0.Code) || (result.0.Start == 0 && len(result.0.Code) == 0)) && codeWf(result.0, simConfig.CoreSize)
@@ -1266,7 +1273,7 @@ package gmars
 
 //@ func CompileWarrior
 //@   panics [C05][C06]
-//@   requires cfgBounded(config)
+//@   requires cfgBounded(config) && r != nil
 //@   modifies nothing
 // either an error or a warrior, never both
 //@   ensures [C05][C06] result.1 != nil ==> len(result.0.Code) == 0 && result.0.Start == 0
@@ -1698,7 +1705,11 @@ package gmars
 //@   loop 1
 //@     invariant 0 - 1 <= rangeindex && rangeindex < len(a) && len(a) == len(b)
 //@     decreases len(a) - rangeindex
+//@ extern strings.NewReader
+//@   modifies nothing
+//@   ensures result != nil
 //@ trusted LexInput
+//@   requires r != nil
 //@   modifies nothing
 //@   ensures result.1 == nil ==> len(result.0) >= 1
 //@ func (*compiler).evaluateAssertion
